@@ -337,3 +337,66 @@ def check_c08(run: Run, prog: Program) -> None:
     if not in_refl:
         run.add("E8", refl.short, "conjugation", UNDECIDED,
                 "reflection no longer uses the translation-conjugation idiom; the clause is not judged", refl.loc)
+
+
+# ================================================================================================ C12
+@prop("C12")
+def check_c12(run: Run, prog: Program) -> None:
+    from geolint import purity
+
+    run.title = "Queries are pure: no call changes operands, shared constants or later answers"
+    run.clause = (
+        "decides the property itself as an effect property: whole-program interprocedural alias/effect analysis (object identity, "
+        "shallow-copy attribute sharing, ndarray memory) over every function of the package; a write construct is a violation when, "
+        "at a public entry point, its target is still an argument, self, a cached attribute, a module constant, a default-argument "
+        "object or a class-level cache. Sound up to UNDECIDED sites (listed) and the numpy aliasing table. No value-level content is needed."
+    )
+    run.trusted += ["numpy 1.26 aliasing table (geolint/npmodel.py), validated with np.shares_memory",
+                    "sanctioned mutators: constructors on self, __setitem__, TensorDiagram builder API, `out` parameters, cache fill of the owning constructor"]
+    n = purity.rule_purity(run, prog)
+    nc = purity.rule_caches(run, prog)
+    run.floor("write constructs analysed", n, 60)
+    run.floor("cache fills analysed", nc, 1)
+    prog.cls("Tensor")
+    for name in ("I", "J", "infty", "infty_plane"):
+        if prog.global_value(f"geometer.point.{name}") is None:
+            run.error(f"public anchor: module constant geometer.point.{name} not found")
+
+
+# ================================================================================================ C05
+@prop("C05")
+def check_c05(run: Run, prog: Program) -> None:
+    from geolint import purity
+
+    run.title = "Tensor diagrams equal the Einstein sum they denote; epsilon/delta are exact"
+    run.clause = (
+        "decides two clauses (thin): (i) both TensorComputationError guards of add_edge exist, are reachable and validate before the "
+        "indices they test are consumed/recorded; (ii) the epsilon/delta caches are filled only by the owning constructor on the miss "
+        "path with a fresh array that depends on the cache key alone, and no array aliasing a cache is ever written anywhere in the "
+        "package (so 'equal their definitions entry by entry' cannot be broken by history). NOT decided: that calculate() builds the "
+        "right einsum subscripts and that the epsilon/delta entries are right - the heart of the property; a mutant there is invisible."
+    )
+    sites = _error_rules(run, prog, "TensorComputationError", ["TensorDiagram.add_edge", "TensorDiagram.__init__"])
+    run.floor("TensorComputationError raise sites", len(sites), 2)
+    nc = purity.rule_caches(run, prog)
+    purity.rule_purity(run, prog, focus_cache_only=True)
+    run.floor("cache fills analysed", nc, 1)
+    eng = purity.get_engine(prog)
+    run.stats["cache_fills"] = sorted(k[0] for k in eng.cache_fills)
+    # every constructor call of a cached tensor class hands out the cached array: count them (none may be written)
+    n_sites = 0
+    import ast as _ast
+
+    for fn in prog.package_functions():
+        for node in _ast.walk(fn.node):
+            if isinstance(node, _ast.Call) and isinstance(node.func, _ast.Name) and node.func.id in ("LeviCivitaTensor", "KroneckerDelta"):
+                n_sites += 1
+    run.stats["cached_tensor_constructor_sites"] = n_sites
+    run.add("E1.cache", "package", "arrays handed out from the caches", PROVEN if not [o for o in run.violations() if o.rule.startswith("E1")] else INFO_OR_VIOL(run),
+            f"{n_sites} constructor sites of LeviCivitaTensor/KroneckerDelta hand out cached arrays; the whole-program effect analysis finds no write into cache memory")
+
+
+def INFO_OR_VIOL(run: Run) -> str:
+    from geolint.report import INFO
+
+    return INFO
